@@ -78,6 +78,8 @@ func (o c09Op) String() string {
 		return fmt.Sprintf("%s(%s,v%d)", o.Kind, o.Key, o.Val)
 	case "put-rejected":
 		return fmt.Sprintf("put-with-short-body(%s)", o.Key)
+	case "complete-rejected":
+		return fmt.Sprintf("complete-with-wrong-object-checksum(%s)", o.Key)
 	case "delete":
 		return "delete(" + o.Key + ")"
 	case "delete-ver":
@@ -103,6 +105,7 @@ func c09Alphabet(thorough bool) []c09Op {
 		{Kind: "copy", Key: "d/k2", Src: "k1"},
 		{Kind: "complete", Key: "k1", Val: 4},
 		{Kind: "put-rejected", Key: "k1", Val: 2},
+		{Kind: "complete-rejected", Key: "k1", Val: 2},
 	}
 	if thorough {
 		ops = append(ops,
@@ -241,6 +244,27 @@ func (c *c09Runner) apply(m *c09Model, o c09Op) (anomaly string, skipped bool) {
 			return "complete-failed:" + errClassAPI(err), false
 		}
 		return addWrite(o.Key, o.Val, getS(out.VersionId)), false
+	case "complete-rejected":
+		// a completion that must be refused (the object checksum it states is not the object's): the version history must not change
+		v := c.vals[o.Val]
+		res, err := p.CreateMultipartUpload(st.ctx(), s3response.CreateMultipartUploadInput{Bucket: sp(c09Bucket), Key: &o.Key, ContentType: &v.CT, Metadata: map[string]string{"w": v.Meta},
+			ChecksumAlgorithm: types.ChecksumAlgorithmCrc32, ChecksumType: types.ChecksumTypeFullObject})
+		if err != nil {
+			return "create-mpu-failed:" + errClassAPI(err), false
+		}
+		up, err := p.UploadPart(st.ctx(), &s3.UploadPartInput{Bucket: sp(c09Bucket), Key: &o.Key, UploadId: &res.UploadId, PartNumber: i32(1), Body: bytes.NewReader(v.Body), ContentLength: i64(int64(len(v.Body))), ChecksumAlgorithm: types.ChecksumAlgorithmCrc32})
+		if err != nil {
+			return "upload-part-failed:" + errClassAPI(err), false
+		}
+		pn := int32(1)
+		_, err = p.CompleteMultipartUpload(st.ctx(), &s3.CompleteMultipartUploadInput{Bucket: sp(c09Bucket), Key: &o.Key, UploadId: &res.UploadId, ChecksumCRC32: sp("AAAAAA=="), ChecksumType: types.ChecksumTypeFullObject,
+			MultipartUpload: &types.CompletedMultipartUpload{Parts: []types.CompletedPart{{PartNumber: &pn, ETag: up.ETag, ChecksumCRC32: up.ChecksumCRC32}}}})
+		if err == nil {
+			return "completion-with-wrong-object-checksum-accepted", false
+		}
+		// the upload is still pending: remove it, so that only the version history is compared
+		_ = p.AbortMultipartUpload(st.ctx(), &s3.AbortMultipartUploadInput{Bucket: sp(c09Bucket), Key: &o.Key, UploadId: &res.UploadId})
+		return "", false
 	case "copy", "copy-ver":
 		src := o.Src
 		srcVal := -1
@@ -514,7 +538,7 @@ func C09(r *ck.Run) {
 	if r.Thorough() {
 		depth = 5
 	}
-	r.Rule(fmt.Sprintf("breadth-first search over every program of length <= %d of put / refused put (short body) / delete / delete-by-version (newest, oldest, middle, null, a delete marker, unknown id) / copy / copy-by-version / multipart-complete / suspend / enable on two keys, from a fresh versioning-enabled bucket, from a bucket whose object predates enabling (null version) and from a bucket whose key has a version plus a newer null version written while suspended, on a real posix backend with versioning directory (xattr and sidecar metadata); a state is the shortest program reaching it, successors are computed by replay, states are deduplicated on (reference version model with ids canonicalised, file counts); after EVERY step a second backend instance checks GET by key, GET and HEAD by every version id, and ListObjectVersions with max-keys 1, 2, 1000 following the returned markers against the reference model; distinct = distinct state", depth))
+	r.Rule(fmt.Sprintf("breadth-first search over every program of length <= %d of put / refused put (short body) / refused multipart completion (wrong object checksum) / delete / delete-by-version (newest, oldest, middle, null, a delete marker, unknown id) / copy / copy-by-version / multipart-complete / suspend / enable on two keys, from a fresh versioning-enabled bucket, from a bucket whose object predates enabling (null version) from a bucket whose key has a version plus a newer null version written while suspended, and from a Suspended bucket whose key has a version, on a real posix backend with versioning directory (xattr and sidecar metadata); a state is the shortest program reaching it, successors are computed by replay, states are deduplicated on (reference version model with ids canonicalised, file counts); after EVERY step a second backend instance checks GET by key, GET and HEAD by every version id, and ListObjectVersions with max-keys 1, 2, 1000 following the returned markers against the reference model; distinct = distinct state", depth))
 	r.Assume("operations are at least one clock tick apart (file mtimes are pinned to a logical clock after each step); a DELETE without id of a key that has no versions may or may not create a marker (the answer says which); deleting an unknown version id may fail or be a no-op")
 	cfgs := []pxCfg{{Versioning: true}, {Versioning: true, Sidecar: true}}
 	if r.Thorough() {
@@ -526,7 +550,7 @@ func C09(r *ck.Run) {
 		for ci, cfg := range cfgs {
 			st := newPxStore("c09", cfg)
 			c := &c09Runner{st: st, vals: vals, r: r}
-			for start := 0; start < 3; start++ {
+			for start := 0; start < 4; start++ {
 				type node struct{ hist []int }
 				// replay returns the model after hist, or ok=false if an anomaly was reported on the way
 				replay := func(hist []int) (*c09Model, string, bool) {
@@ -566,6 +590,19 @@ func C09(r *ck.Run) {
 						}
 						m.Keys["k1"] = []c09Ver{{"null", 3, false}, {out.VersionID, 0, false}}
 					}
+					if start == 3 {
+						// k1 has a version written while Enabled; the bucket is then Suspended and stays so
+						out, err := st.A.PutObject(st.ctx(), s3response.PutObjectInput{Bucket: sp(c09Bucket), Key: sp("k1"), Body: bytes.NewReader(vals[0].Body), ContentLength: i64(int64(len(vals[0].Body))), ContentType: &vals[0].CT, Metadata: map[string]string{"w": vals[0].Meta}})
+						if err != nil || out.VersionID == "" {
+							ck.Fatal("seed version: %v", err)
+						}
+						st.pinTimes(-1)
+						if err := st.A.PutBucketVersioning(st.ctx(), c09Bucket, types.BucketVersioningStatusSuspended); err != nil {
+							ck.Fatal("suspend: %v", err)
+						}
+						m.Status = "Suspended"
+						m.Keys["k1"] = []c09Ver{{out.VersionID, 0, false}}
+					}
 					report := func(i int, an string) {
 						var names []string
 						for _, h := range hist[:i+1] {
@@ -579,6 +616,9 @@ func C09(r *ck.Run) {
 							}
 						}
 						mode := "enabled-only"
+						if start == 3 {
+							mode = "suspended-bucket"
+						}
 						for _, h := range hist[:i+1] {
 							if alpha[h].Kind == "suspend" {
 								mode = "suspend-in-history"
@@ -593,7 +633,7 @@ func C09(r *ck.Run) {
 							}
 							sig = ck.JoinSig(mode, kind)
 						}
-						r.Violation(sig, map[string]any{"config": cfg.String(), "start": []string{"fresh enabled bucket", "object k1 predates enabling (null version)", "k1 has a version and a newer null version written while suspended"}[start],
+						r.Violation(sig, map[string]any{"config": cfg.String(), "start": []string{"fresh enabled bucket", "object k1 predates enabling (null version)", "k1 has a version and a newer null version written while suspended", "k1 has a version, the bucket is Suspended"}[start],
 							"program": names, "model": m.key()})
 					}
 					for i, oi := range hist {
